@@ -331,9 +331,9 @@ Finished == phase = "done" /\ UNCHANGED vars          \* stutter, so that TLC's 
 FNext == Raise \/ InnerRun \/ ConvertStep \/ Unwind \/ Return \/ Finished
 
 \* the same machine as a function (used by Trace_Faults for the drift diagnostic; MC_Faults checks they agree)
-ModelOutcome(c) ==
+ModelOutcomeWith(c, rendererLost) ==
   LET f == FaultByName(c.fault)
-      after == IF RendererLost(c) THEN "hostpanic" ELSE "nil"     \* Convert("OpText", "rt:nil-deref") = "fatal"
+      after == IF rendererLost THEN "hostpanic" ELSE "nil"       \* Convert("OpText", "rt:nil-deref") = "fatal"
       outer(o, p) == LET r == Convert(o, p) IN
                      IF r = "fatal" THEN "hostpanic"
                      ELSE IF Recovers(c.form) THEN after
@@ -342,6 +342,7 @@ ModelOutcome(c) ==
      ELSE IF f.nested = "no" THEN outer(f.op, f.pv)
      ELSE IF Convert(f.op, f.pv) = "PanicError" /\ f.nested = "recovers" THEN after
      ELSE outer("OpCallNative", "scriggo:fatalError")
+ModelOutcome(c) == ModelOutcomeWith(c, RendererLost(c))
 
 (* ------------------------------------------------------------------ what MC_Faults checks *)
 TypeOK == /\ cs \in Grid /\ result \in Outcomes \cup {"none"} /\ recovering \in BOOLEAN
